@@ -837,6 +837,17 @@ def run(U, rep, tier):
   contacts(U, rep, tier)
   spring_limits(U, rep, tier)
   spring_limits_mixed(U, rep, tier)
+  # R6.12: "contacts are inert until reached / rest at the right height": the contacts every pipeline consumes are computed
+  # for the geoms WHERE THEY ARE -- contact.get hands the collision routine link pose (x) geom pose, composed in that
+  # order (= C10 R10.1 / R10.2; the consumers above take contact.get as given)
+  from braxlint.props import c10 as _c10
+  from braxlint.props.c16 import _Relabel as _RL
+  _c10.local_to_global(U, _RL(rep, 'R6.12'))
+  _c10.get_dataflow(U, _RL(rep, 'R6.12'))
+  # R6.11: "a limit that is not reached": the limits are the MODEL's -- dof.limit is the reference built from the mjModel
+  # (limited iff the jnt_limited flag says so; shared with C14 R14.4)
+  from braxlint.props import c14 as _c14
+  _c14.loader_fields(U, rep, rule='R6.11', prefix=('dof.limit',), label='loader:', floor=1)
   positional_limits(U, rep, tier)
   generalized_limits(U, rep)
   push_only(U, rep)
